@@ -742,8 +742,8 @@ impl ParserListener for Screen {
 
         let line = self
             .buffer
-            .get_mut(&self.cursor.y)
-            .expect("can not retrieve line");
+            .entry(self.cursor.y)
+            .or_insert_with(HashMap::new);
         for x in (self.cursor.x..self.columns + 1).rev() {
             if x + count <= self.columns {
                 let x_val = line.get(&x);
